@@ -57,10 +57,16 @@ def main():
     out_path = os.path.join(VERIF, "evidence", "sensitivity.json")
     results = json.load(open(out_path)) if os.path.exists(out_path) else {}
     bad = 0
-    for prop, name, patch in items:
-        if props and prop not in props: continue
-        if only and only not in name: continue
-        res = run_one(prop, patch, runs)
+    todo = [(prop, name, patch) for prop, name, patch in items if (not props or prop in props) and (not only or only in name)]
+    import concurrent.futures as cf
+    jobs = int(os.environ.get("SENS_JOBS", "1"))
+    if jobs > 1:
+        os.environ["VERIF_WORKERS"] = str(max(2, 16 // jobs))
+    with cf.ThreadPoolExecutor(max_workers=jobs) as ex:
+        futs = {ex.submit(run_one, prop, patch, runs): (prop, name, patch) for prop, name, patch in todo}
+        done_iter = cf.as_completed(futs)
+        ordered = [(futs[f], f.result()) for f in done_iter]
+    for (prop, name, patch), res in ordered:
         results[name] = dict(res, property=prop)
         print(f"{name:50s} {res['status']:14s} {res.get('wall_s','')}", flush=True)
         expected = "MISSED" if name.startswith("control/") else "caught"
